@@ -290,7 +290,9 @@ static Boolean Decode_rpa2(
         return False;
     }
     *Erg  = (BaseReg == 3) ? 15 : 11;
-    *Disp = EvalStrIntExpressionOffs(pArg, p - pArg->str.p_str, SInt8, &OK);
+    /* a '-' belongs to the displacement expression, a '+' only separates register and displacement
+       (the expression parser knows no unary plus in front of a symbol or a parenthesis) */
+    *Disp = EvalStrIntExpressionOffs(pArg, p - pArg->str.p_str + ((*p == '+') ? 1 : 0), SInt8, &OK);
     return OK;
 }
 
